@@ -3,7 +3,7 @@
 ENGINES = [
     {
         "name": "vloop",
-        "path": "vf/engine/vloop.py vf/engine/explore.py vf/engine/netsim.py vf/engine/dbshim.py",
+        "path": "vf/engine/vloop.py vf/engine/explore.py vf/engine/netsim.py vf/engine/dbshim.py vf/engine/seams.py vf/engine/realnet.py",
         "serves_properties": ["C04", "C05", "C06", "C07", "C08", "C09", "C10", "C11", "C12", "C19"],
         "kind_free_text": "stateless model checker for asyncio code: virtual-time BaseEventLoop stepped by hand, "
         "deviation-bounded exhaustive DFS over environment choices (segment delivery, timers, EOF/RST, cancel), "
